@@ -378,3 +378,62 @@
             core::mem::forget(x);
         }
     }
+
+    /// C06/C07: the HEARTBEAT decoder establishes the validity the handlers rely on.  For every header and every 28-byte
+    /// body, both byte orders: Ok or Err without panic, and on Ok first_sn >= 1 and last_sn >= first_sn - 1 (RTPS
+    /// 8.3.7.5.3) - so that the reader-side bookkeeping fed by a HEARTBEAT (lost_changes_update(first_sn), then
+    /// available_changes_max() = max(first_sn - 1, ..)) cannot overflow: the precondition wf(proxy) of the Verus contracts
+    /// (first_available_seq_num > i64::MIN) is established at the boundary where the value enters.
+    /// @props C06 C07 C01
+    /// @kind proof
+    /// @tier quick
+    /// @fn HeartbeatSubmessage::try_from_bytes
+    #[cfg_attr(kani, kani::proof)]
+    fn c06_heartbeat_decoder_establishes_validity() {
+        let body: [u8; 28] = kani::any();
+        let le: bool = kani::any();
+        let h = SubmessageHeaderRead {
+            submessage_id: HEARTBEAT,
+            flags: [le, kani::any(), kani::any(), kani::any(), kani::any(), kani::any(), kani::any(), kani::any()],
+            submessage_length: 28,
+            endianness: if le { Endianness::LittleEndian } else { Endianness::BigEndian },
+        };
+        let r = HeartbeatSubmessage::try_from_bytes(&h, &body);
+        if let Ok(y) = &r {
+            assert!(y.first_sn() >= 1, "C06: a decoded HEARTBEAT has first_sn >= 1");
+            assert!(y.last_sn() >= y.first_sn() - 1, "C06: a decoded HEARTBEAT has last_sn >= first_sn - 1");
+        }
+        kani::cover!(r.is_ok());
+        kani::cover!(r.is_err());
+        core::mem::forget(r);
+    }
+
+    /// C06/C07: the DATA_FRAG decoder rejects fragment_size == 0.  For every 36-byte little-endian body (inline-QoS offset
+    /// 28, inline-QoS flag clear; every other field arbitrary): Ok or Err without panic, and on Ok fragment_size != 0 - the
+    /// precondition of total_fragments_expected (Verus contract in frag_arith_v) and of div_ceil in the NACK_FRAG
+    /// generation, so that a buffered fragment can never make the reassembly divide by zero.
+    /// @props C06 C07 C05
+    /// @kind bounded
+    /// @tier quick
+    /// @timeout 1200
+    /// @bounds 36-byte body, little endian, octetsToInlineQos = 28, inline-QoS flag clear (keeps the payload length concrete)
+    /// @fn DataFragSubmessage::try_from_bytes
+    #[cfg_attr(kani, kani::proof)]
+    fn c06_data_frag_decoder_rejects_zero_fragment_size() {
+        let mut body: [u8; 36] = kani::any();
+        body[2] = 28;
+        body[3] = 0;
+        let h = SubmessageHeaderRead {
+            submessage_id: DATA_FRAG,
+            flags: [true, false, kani::any(), kani::any(), kani::any(), kani::any(), kani::any(), kani::any()],
+            submessage_length: 36,
+            endianness: Endianness::LittleEndian,
+        };
+        let r = DataFragSubmessage::try_from_bytes(&h, &body);
+        if let Ok(y) = &r {
+            assert!(y.fragment_size() != 0, "C06: a decoded DATA_FRAG never has fragment_size 0");
+        }
+        kani::cover!(r.is_ok());
+        kani::cover!(r.is_err());
+        core::mem::forget(r);
+    }
